@@ -503,7 +503,14 @@ func ZZ_C11_ersReadFaults() {
 // ExtendedDaemonSet reconciles follow (fresh instances).  Whatever happened in between, the end is
 // the rollback of the failure-free run: spec.template back to A, status.canary cleared, foo-a
 // active, and foo-b never promoted at any point.
-func ZZ_C11_rollbackHandOver() {
+func ZZ_C11_rollbackHandOver() { zzRollbackHandOver("C11.hand-over") }
+
+// ZZ_C07_rollbackHandOver: the same runs seen from C07: "the rollback completes even if the status write
+// succeeds and the following spec write fails or the controller stops between them ... every subsequent
+// fair reconcile order" — the replica-set controller's sync between the two attempts included.
+func ZZ_C07_rollbackHandOver() { zzRollbackHandOver("C07.hand-over") }
+
+func zzRollbackHandOver(prop string) {
 	one := intstr.FromInt(1)
 	w, ds := zzNewWorld(2, &datadoghqv1alpha1.ExtendedDaemonSetSpecStrategyCanary{Replicas: &one, Duration: &metav1.Duration{Duration: nondet.Duration("canary.duration", time.Minute, time.Hour)}})
 	rsB := zzRS("foo-b", w.hashB)
@@ -523,7 +530,7 @@ func ZZ_C11_rollbackHandOver() {
 	edsReconcile := func() {
 		r, _ := edsctrl.NewReconciler(edsctrl.ReconcilerOptions{DefaultValidationMode: datadoghqv1alpha1.ExtendedDaemonSetSpecStrategyCanaryValidationModeAuto}, w.c, w.c.Scheme(), logr.Logger{}, &fakeapi.Recorder{})
 		_, _ = r.Reconcile(context.TODO(), reconcile.Request{NamespacedName: types.NamespacedName{Namespace: zzNS, Name: zzEDSName}})
-		nondet.Assert("C11.hand-over.failed-canary-never-promoted", w.c.EDS[0].Status.ActiveReplicaSet == "foo-a")
+		nondet.Assert(prop+".failed-canary-never-promoted", w.c.EDS[0].Status.ActiveReplicaSet == "foo-a")
 	}
 	w.c.InjectFaults = true
 	w.c.FaultOnly = func(verb, kind, name, node string) bool { return kind == "ExtendedDaemonSet" }
@@ -545,8 +552,8 @@ func ZZ_C11_rollbackHandOver() {
 		edsReconcile()
 	}
 	final := w.c.EDS[0]
-	nondet.Assert("C11.hand-over.rolled-back", final.Status.Canary == nil && final.Status.ActiveReplicaSet == "foo-a" &&
+	nondet.Assert(prop+".rolled-back", final.Status.Canary == nil && final.Status.ActiveReplicaSet == "foo-a" &&
 		len(final.Spec.Template.Spec.Containers) == 1 && final.Spec.Template.Spec.Containers[0].Image == "agent:A")
 	nondet.Observe("state", string(final.Status.State))
-	nondet.Reach("C11.hand-over.fault-then-replicaset-sync", anyFault && final.Status.Canary == nil)
+	nondet.Reach(prop+".fault-then-replicaset-sync", anyFault && final.Status.Canary == nil)
 }
